@@ -214,7 +214,14 @@ func (g *Gen) vary(kind string, w Val) Val {
 	switch kind {
 	case KString:
 		s := w.S
-		switch g.intn(0, 6, "vs") {
+		switch g.intn(0, 7, "vs") {
+		case 7:
+			// the value as a pasted or line-read source carries it: padded with a line break, a tab or a blank
+			pad := pick(g, []string{"\n", "\r\n", "\t", " "}, "padv")
+			if g.p(0.5, "padfront") {
+				return Str(pad + s)
+			}
+			return Str(s + pad)
 		case 0:
 			return Str(s + "x")
 		case 1:
@@ -365,9 +372,9 @@ func (g *Gen) funcTest(preds []string, idx int) TestSpec {
 	if g.p(g.Cfg.PComplex, "complex") {
 		// the same predicate written as a complex test (z.Test{Func} reporting through ctx.AddIssue)
 		ts.AsValue = false
-		ts.Complex = pick(g, []string{"ctx", "ctx", "hand", "handpath"}, "cx")
+		ts.Complex = pick(g, []string{"ctx", "ctx", "hand", "handpath", "ctx2"}, "cx")
 		switch ts.Complex {
-		case "ctx":
+		case "ctx", "ctx2":
 			ts.Opts.Path = "" // (what ctx.Issue() prefills is the point)
 		case "hand":
 			ts.Opts.Path = ""
